@@ -258,7 +258,8 @@ def shipped(ctx):
     # by-name loading is a function of the file: a second load after the first object was modified (or used) gives
     # the same settings as the file
     from panoptica.utils.filepath import config_by_name
-    for name in ("panoptica_evaluator_unmatched_instance", "panoptica_evaluator_BRATS"):
+    for name in ("panoptica_evaluator_unmatched_instance", "panoptica_evaluator_BRATS", "panoptica_evaluator_unmatched_instance.yaml", "panoptica_evaluator_BRATS.yaml"):
+        # the name of a shipped configuration, given bare or with its extension
         inp = {"shipped_by_name": name}
         ctx.case(inp, True)
         ctx.count("by_name_histories")
